@@ -1,7 +1,8 @@
 (* C17 — Served data equals ingested state; nothing outlives its deletion.
    Statements only; proofs in MetricsProofs.v.  Model: Metrics (registry, scrape, the Delete functions) over Storage.step and Eval.eval_group. *)
-From Coq Require Import ZArith List Bool.
+From Coq Require Import ZArith List Bool String.
 From Burrow Require Import Int64 F32 Eval AMap Ring Storage Metrics MetricsProofs.
+From BurrowGen Require Import JsonTags.
 Import ListNotations.
 Open Scope Z_scope.
 
@@ -215,3 +216,27 @@ Example C17_nonvacuous :
     reg_get (s_reg sy3) (KGroup GStatus 1 1) <> None.
 Proof. exact scrape_nonvacuous. Qed.
 Print Assumptions C17_nonvacuous.
+
+(* ==== regenerated tables (translator/jsontags re-reads /repo on every run; gen/JsonTags.v) ==== *)
+(* once and for all: what the two checkers guarantee *)
+Theorem C17_sites_ok_sound :
+  forall l, sites_ok l = true ->
+    (exists s, In s l /\ site_req s = "StorageSetDeleteTopic"%string) /\
+    (forall s, In s l -> site_req s = "StorageSetDeleteTopic"%string -> In (wanted_call s) (site_calls s)).
+Proof. exact sites_ok_sound. Qed.
+Print Assumptions C17_sites_ok_sound.
+
+Theorem C17_tags_ok_sound :
+  forall tbl, tags_ok tbl = true -> forall s f k, In (s, f, k) required_tags -> In (s, f, k) tbl.
+Proof. exact tags_ok_sound. Qed.
+Print Assumptions C17_tags_ok_sound.
+
+(* per run: every function of the tree that tells storage to delete a topic also calls DeleteTopicMetrics for that cluster
+   and topic (the OTopicDeleted step of the model), and the served structs carry the documented JSON keys *)
+Theorem C17_delete_sites_table : sites_ok JsonTags.sites = true.
+Proof. vm_compute; reflexivity. Qed.
+Print Assumptions C17_delete_sites_table.
+
+Theorem C17_json_tags_table : tags_ok JsonTags.tags = true.
+Proof. vm_compute; reflexivity. Qed.
+Print Assumptions C17_json_tags_table.
